@@ -2,8 +2,10 @@
   Lint suppression (C13): mirror of `Diagnostics::into_updated` (slicec/src/diagnostics/diagnostic.rs), of clap's
   acceptance of `--allow` values (slice_options.rs), of `all_attributes` (grammar/traits.rs) and of the scope string
   every lint records when it is created (patchers/type_ref_patcher.rs, patchers/comment_link_patcher.rs,
-  validators/{comments,operations}.rs, parsers/comments/parser.rs, utils/file_util.rs).
-  The tables (lint kinds, allowable identifiers, default levels, comparison, inheritance) come from `Gen/Lints.lean`.
+  validators/{comments,operations}.rs, parsers/comments/parser.rs, utils/file_util.rs) — for the `Deprecated` lint that is
+  the parser scope the type reference was written in, which the grammar decides (parsers/slice/grammar.lalrpop).
+  The tables (lint kinds, allowable identifiers, default levels, comparison, inheritance, scope expressions, the parser
+  scope of every `TypeRef` position of the grammar) come from `Gen/Lints.lean`.
 -/
 import SlicecVerif.Gen.Lints
 import SlicecVerif.Model.Syntax
@@ -60,7 +62,7 @@ def lowerChar (c : Char) : Char := if 65 ≤ c.toNat ∧ c.toNat ≤ 90 then Cha
 /-- `str::eq_ignore_ascii_case` -/
 def eqIgnoreAsciiCase (a b : String) : Bool := a.toList.map lowerChar == b.toList.map lowerChar
 
-/-- the comparison used by `is_lint_allowed_by` (`==` on the pinned tree) -/
+/-- the comparison used by `is_lint_allowed_by`: `eq_ignore_ascii_case` or `==`, whichever the source has (extracted) -/
 def lintIdEq (a b : String) : Bool := if Gen.allowCompareIgnoresCase then eqIgnoreAsciiCase a b else a == b
 
 /-- `is_lint_allowed_by(identifiers, lint)` -/
@@ -149,9 +151,10 @@ def defAllowEntries (modScope : String) : Def → AllowTable
   | .custom _ attrs name => [(scopedId name modScope, some (withInherited "CustomType" (allowArgs attrs) []))]
   | .alias _ attrs name _ => [(scopedId name modScope, some (withInherited "TypeAlias" (allowArgs attrs) []))]
 
+def fileModScope (f : SFile) : String := match f.module with | some m => m.path | none => ""
+
 def fileAllowEntries (f : SFile) : AllowTable :=
-  let modScope := match f.module with | some m => m.path | none => ""
-  f.defs.flatMap (defAllowEntries modScope) ++
+  f.defs.flatMap (defAllowEntries (fileModScope f)) ++
   (match f.module with | some m => [(m.path, none)] | none => [])   -- a module is a node but not an entity
 
 def allowTable (p : Program) : AllowTable :=
@@ -258,14 +261,14 @@ def scanDoc (doc : List String) : DocScan := scanDocAux false doc {}
 
 /-- how a creation site fills `scope`, recognised from the argument text of `.set_scope(…)` (Gen.lintScopeSites) -/
 inductive ScopeRule where
-  | containerScope    -- `type_ref.parser_scope()`: the parser scope the reference was written in
+  | writtenScope      -- `type_ref.parser_scope()`: the parser scope the type reference was written in
   | ownScopedId       -- `x.parser_scoped_identifier()` / the identifier handed to the comment parser
   | noScope
   | unknown
   deriving DecidableEq, Repr
 
 def scopeRuleOfExpr (e : String) : ScopeRule :=
-  if e == "type_ref.parser_scope()" then .containerScope
+  if e == "type_ref.parser_scope()" then .writtenScope
   else if e == "commentable.parser_scoped_identifier()" || e == "entity.parser_scoped_identifier()" ||
           e == "operation.parser_scoped_identifier()" || e == "self.identifier" then .ownScopedId
   else if e == "-" then .noScope
@@ -284,24 +287,49 @@ structure LintSite where
   scope : Option String
   /-- key of the element the lint is about (the member whose type is deprecated, the commented element) -/
   concerns : Option String
+  /-- the property's "element it concerns or a definition enclosing that element", read off the syntax without any
+      lookup: argument lists of the `allow` attributes written on the element the lint concerns, followed by those written
+      on the definitions that enclose it, innermost first (modules are not definitions; `allow` is rejected on them) -/
+  chain : List (List String)
   /-- printer path of the type reference (Deprecated) / of the commented element (doc lints) -/
   path : String
   deriving Repr, Inhabited, DecidableEq
 
 /-- the scope a site records, by the rule extracted for its kind -/
-def recordedScope (kind : String) (parserScope ownKey : String) : Option String :=
+def recordedScope (kind : String) (writtenScope ownKey : String) : Option String :=
   match scopeRule kind with
-  | .containerScope => some parserScope
+  | .writtenScope => some writtenScope
   | .ownScopedId => some ownKey
   | .noScope => none
   | .unknown => none
 
-structure RefCtx where
-  table : Table
-  file : Nat
-  modScope : String
-  parserScope : String
+/-- the parser scope in which the type of the member `member` of `container` is written (grammar.lalrpop): `Field`,
+    `Parameter` (also the members of a return tuple) and `TypeAlias` either read their identifier with
+    `ContainerIdentifier` and close with `ContainerEnd` after the `TypeRef` — then every reference written inside the
+    type, however deeply nested in `Sequence` / `Dictionary` / `Result`, carries the member's own scoped identifier —
+    or they do not, and the references carry the scope of the enclosing container (for an alias: the module).
+    Which of the two is extracted from the grammar (`Gen.memberTypesParsedInMemberScope`). -/
+def memberTypeScope (container member : String) : String :=
+  if Gen.memberTypesParsedInMemberScope then scopedId member container else container
+
+/-- what the model assumes about the remaining `TypeRef` positions of the grammar (checked against the extracted table
+    by `Lemmas.typeRef_scopes_known`): bases and an enum's underlying type are written after the `ContainerIdentifier`
+    of the interface / enum; a single return type and the arguments of `Sequence` / `Dictionary` / `Result` are written
+    in whatever scope is current (the operation; the scope of the reference they are nested in) -/
+def typeRefScopesExpected : List (String × String × String) :=
+  let m := if Gen.memberTypesParsedInMemberScope then "own" else "enclosing"
+  [("Dictionary", "0", "enclosing"), ("Enum", "0", "own"), ("Field", "0", m), ("Interface", "0", "own"), ("Parameter", "0", m),
+   ("Result", "0", "enclosing"), ("ReturnType", "0", "enclosing"), ("Sequence", "0", "enclosing"), ("TypeAlias", "0", m)]
+
+/-- a written type reference together with what the lint about it needs: the parser scope it is written in, the key of
+    the element it belongs to, that element's `allow` chain, its printer path -/
+structure MemberRef where
+  writtenScope : String
   owner : String
+  chain : List (List String)
+  path : String
+  ty : TRef
+  deriving Inhabited
 
 /-- `check_for_deprecated_type`: the looked-up node is an entity carrying `deprecated` itself -/
 def isDeprecatedTarget (t : Table) (id modScope : String) : Bool :=
@@ -309,121 +337,147 @@ def isDeprecatedTarget (t : Table) (id modScope : String) : Bool :=
   | some n => n.kind != .module && n.kind != .primitive && n.attrs.any fun a => a.directive == "deprecated"
   | none => false
 
-def directSite (c : RefCtx) (path : String) (r : TRef) : List LintSite :=
+def depSite (file : Nat) (m : MemberRef) (path : String) : LintSite :=
+  { kind := "Deprecated", file := file, scope := recordedScope "Deprecated" m.writtenScope m.owner, concerns := some m.owner,
+    chain := m.chain, path := path }
+
+/-- printer path of the reference itself if it names a deprecated entity (only the first lookup is checked) -/
+def directHit (t : Table) (modScope path : String) (r : TRef) : List String :=
   match r.ty with
-  | .named id =>
-    if isDeprecatedTarget c.table id c.modScope then
-      [{ kind := "Deprecated", file := c.file, scope := recordedScope "Deprecated" c.parserScope c.owner, concerns := some c.owner, path := path }]
-    else []
+  | .named id => if isDeprecatedTarget t id modScope then [path] else []
   | _ => []
 
 mutual
-/-- lints of the anonymous type nodes written inside a reference, in the order the parser adds those nodes (inner first) -/
-def anonSites (c : RefCtx) (path : String) : TRef → List LintSite
-  | .mk _ ty _ => anonSitesTy c path ty
-def anonSitesTy (c : RefCtx) (path : String) : TyExpr → List LintSite
+/-- references written inside the anonymous type nodes of a reference that name a deprecated entity, in the order the
+    parser adds those nodes (inner first) -/
+def anonHits (t : Table) (modScope path : String) : TRef → List String
+  | .mk _ ty _ => anonHitsTy t modScope path ty
+def anonHitsTy (t : Table) (modScope path : String) : TyExpr → List String
   | .prim _ => []
   | .named _ => []
-  | .seq e => anonSites c (path ++ ".e") e ++ directSite c (path ++ ".e") e
-  | .dict k v => anonSites c (path ++ ".k") k ++ anonSites c (path ++ ".v") v ++ directSite c (path ++ ".k") k ++ directSite c (path ++ ".v") v
-  | .result s f => anonSites c (path ++ ".s") s ++ anonSites c (path ++ ".f") f ++ directSite c (path ++ ".s") s ++ directSite c (path ++ ".f") f
+  | .seq e => anonHits t modScope (path ++ ".e") e ++ directHit t modScope (path ++ ".e") e
+  | .dict k v => anonHits t modScope (path ++ ".k") k ++ anonHits t modScope (path ++ ".v") v ++
+                 directHit t modScope (path ++ ".k") k ++ directHit t modScope (path ++ ".v") v
+  | .result s f => anonHits t modScope (path ++ ".s") s ++ anonHits t modScope (path ++ ".f") f ++
+                   directHit t modScope (path ++ ".s") s ++ directHit t modScope (path ++ ".f") f
 end
 
-/-- members of one container: first every anonymous node of every member, then the member nodes themselves -/
-def memberRefSites (t : Table) (file : Nat) (modScope parserScope : String) (ms : List (String × String × TRef)) : List LintSite :=
-  let ctx := fun (m : String × String × TRef) => ({ table := t, file := file, modScope := modScope, parserScope := parserScope, owner := scopedId m.1 parserScope } : RefCtx)
-  (ms.flatMap fun m => anonSites (ctx m) m.2.1 m.2.2) ++ (ms.flatMap fun m => directSite (ctx m) m.2.1 m.2.2)
+/-- members of one container: first every anonymous node of every member, then the member nodes themselves; all lints
+    about references written inside the type of a member carry that member's `writtenScope` -/
+def memberRefSites (t : Table) (file : Nat) (modScope : String) (ms : List MemberRef) : List LintSite :=
+  (ms.flatMap fun m => (anonHits t modScope m.path m.ty).map (depSite file m)) ++
+  (ms.flatMap fun m => (directHit t modScope m.path m.ty).map (depSite file m))
 
-def opMembers (path : String) (o : Op) : List (String × String × TRef) :=
-  (o.params.zipIdx.map fun (q, i) => (q.name, path ++ ".p" ++ toString i ++ ".t", q.ty)) ++
-  ((retParams o.ret).zipIdx.map fun (q, i) => (q.name, path ++ ".r" ++ toString i ++ ".t", q.ty))
+/-- a named member (field, parameter, member of a return tuple) of the container `ckey` whose `allow` chain is `cchain` -/
+def namedMemberRef (ckey : String) (cchain : List (List String)) (name : String) (attrs : List Attr) (path : String) (ty : TRef) : MemberRef :=
+  { writtenScope := memberTypeScope ckey name, owner := scopedId name ckey, chain := allowArgs attrs ++ cchain, path := path, ty := ty }
+
+def fieldRefs (ckey : String) (cchain : List (List String)) (path : String) (fs : List Field) : List MemberRef :=
+  fs.zipIdx.map fun (f, i) => namedMemberRef ckey cchain f.name f.attrs (path ++ ".f" ++ toString i ++ ".t") f.ty
+
+/-- parameters, then return members. A single unnamed return type `-> T` is written in the operation's scope (the
+    `ReturnType` production opens none); the dummy `returnValue` parameter built for it has no attributes, so the
+    definitions enclosing it are the operation and the interface. -/
+def opRefs (okey : String) (ochain : List (List String)) (path : String) (o : Op) : List MemberRef :=
+  (o.params.zipIdx.map fun (q, i) => namedMemberRef okey ochain q.name q.attrs (path ++ ".p" ++ toString i ++ ".t") q.ty) ++
+  (match o.ret with
+   | .none => []
+   | .single _ _ ty => [{ writtenScope := okey, owner := scopedId "returnValue" okey, chain := ochain, path := path ++ ".r0.t", ty := ty }]
+   | .tuple ps => ps.zipIdx.map fun (q, i) => namedMemberRef okey ochain q.name q.attrs (path ++ ".r" ++ toString i ++ ".t") q.ty)
+
+/-- a reference written directly in a definition's own scope, after its `ContainerIdentifier` (base interface, underlying type) -/
+def ownRef (key : String) (chain : List (List String)) (path : String) (ty : TRef) : MemberRef :=
+  { writtenScope := key, owner := key, chain := chain, path := path, ty := ty }
+
+/-- the written type references of one definition, grouped per container in the order `TypeRefPatcher::compute_patches`
+    meets the AST nodes (members before their container, bases and underlying type with the container itself) -/
+def defRefGroups (modScope : String) (path : String) : Def → List (List MemberRef)
+  | .struct _ attrs _ name fields =>
+    let key := scopedId name modScope
+    [fieldRefs key (allowArgs attrs) path fields]
+  | .iface _ attrs name bases ops =>
+    let key := scopedId name modScope
+    let chain := allowArgs attrs
+    (ops.zipIdx.map fun (o, i) => opRefs (scopedId o.name key) (allowArgs o.attrs ++ chain) (path ++ ".o" ++ toString i) o) ++
+    [bases.zipIdx.map fun (b, i) => ownRef key chain (path ++ ".b" ++ toString i) b]
+  | .enum _ attrs _ _ name underlying es =>
+    let key := scopedId name modScope
+    let chain := allowArgs attrs
+    (es.zipIdx.map fun (e, i) =>
+      fieldRefs (scopedId e.name key) (allowArgs e.attrs ++ chain) (path ++ ".e" ++ toString i) (e.fields.getD [])) ++
+    [match underlying with | some u => [ownRef key chain (path ++ ".u") u] | none => []]
+  | .custom .. => []
+  | .alias _ attrs name ty =>
+    [[{ writtenScope := memberTypeScope modScope name, owner := scopedId name modScope, chain := allowArgs attrs, path := path ++ ".t", ty := ty }]]
 
 /-- Deprecated lints of one definition in the order `TypeRefPatcher::compute_patches` walks the AST nodes -/
-def defDeprecatedSites (t : Table) (file : Nat) (modScope : String) (path : String) : Def → List LintSite
-  | .struct _ _ _ name fields =>
-    let key := scopedId name modScope
-    memberRefSites t file modScope key (fields.zipIdx.map fun (f, i) => (f.name, path ++ ".f" ++ toString i ++ ".t", f.ty))
-  | .iface _ _ name bases ops =>
-    let key := scopedId name modScope
-    (ops.zipIdx.flatMap fun (o, i) => memberRefSites t file modScope (scopedId o.name key) (opMembers (path ++ ".o" ++ toString i) o)) ++
-    (bases.zipIdx.flatMap fun (b, i) =>
-      directSite { table := t, file := file, modScope := modScope, parserScope := key, owner := key } (path ++ ".b" ++ toString i) b)
-  | .enum _ _ _ _ name underlying es =>
-    let key := scopedId name modScope
-    (es.zipIdx.flatMap fun (e, i) =>
-      memberRefSites t file modScope (scopedId e.name key)
-        ((e.fields.getD []).zipIdx.map fun (f, j) => (f.name, path ++ ".e" ++ toString i ++ ".f" ++ toString j ++ ".t", f.ty))) ++
-    (match underlying with
-     | some u => directSite { table := t, file := file, modScope := modScope, parserScope := key, owner := key } (path ++ ".u") u
-     | none => [])
-  | .custom .. => []
-  | .alias _ _ name ty =>
-    let c : RefCtx := { table := t, file := file, modScope := modScope, parserScope := modScope, owner := scopedId name modScope }
-    anonSites c (path ++ ".t") ty ++ directSite c (path ++ ".t") ty
+def defDeprecatedSites (t : Table) (file : Nat) (modScope : String) (path : String) (d : Def) : List LintSite :=
+  (defRefGroups modScope path d).flatMap (memberRefSites t file modScope)
 
-/-- a commented element: key, printer path, kind, doc, parameter names, return member names (`none` = not an operation) -/
+/-- a commented element: key, printer path, kind, doc, its `allow` chain (own attributes, then the enclosing definitions'),
+    parameter names, return member names (`none` = not an operation) -/
 structure Commented where
   key : String
   path : String
   kind : NodeKind
   doc : List String
+  chain : List (List String)
   params : List String := []
   rets : Option (List String) := none
   deriving Inhabited
 
-def fieldsCommented (scope path : String) (fs : List Field) : List Commented :=
-  fs.zipIdx.map fun (f, i) => { key := scopedId f.name scope, path := path ++ ".f" ++ toString i, kind := .field, doc := f.doc }
+def fieldsCommented (scope path : String) (cchain : List (List String)) (fs : List Field) : List Commented :=
+  fs.zipIdx.map fun (f, i) =>
+    { key := scopedId f.name scope, path := path ++ ".f" ++ toString i, kind := .field, doc := f.doc, chain := allowArgs f.attrs ++ cchain }
 
-def opCommented (scope path : String) (o : Op) : Commented :=
-  { key := scopedId o.name scope, path := path, kind := .operation, doc := o.doc, params := o.params.map (·.name),
-    rets := some ((retParams o.ret).map (·.name)) }
+def opCommented (scope path : String) (cchain : List (List String)) (o : Op) : Commented :=
+  { key := scopedId o.name scope, path := path, kind := .operation, doc := o.doc, chain := allowArgs o.attrs ++ cchain,
+    params := o.params.map (·.name), rets := some ((retParams o.ret).map (·.name)) }
 
-/-- commented elements of a definition in the order their constructors run in the parser = the order they are added to
-    the AST per container (members before their container) -/
-def defCommentedParseOrder (modScope path : String) : Def → List Commented
-  | .struct doc _ _ name fields =>
-    let key := scopedId name modScope
-    fieldsCommented key path fields ++ [{ key := key, path := path, kind := .struct, doc := doc }]
-  | .iface doc _ name _ ops =>
-    let key := scopedId name modScope
-    (ops.zipIdx.map fun (o, i) => opCommented key (path ++ ".o" ++ toString i) o) ++ [{ key := key, path := path, kind := .interface, doc := doc }]
-  | .enum doc _ _ _ name _ es =>
-    let key := scopedId name modScope
-    (es.zipIdx.flatMap fun (e, i) =>
-      fieldsCommented (scopedId e.name key) (path ++ ".e" ++ toString i) (e.fields.getD []) ++
-      [{ key := scopedId e.name key, path := path ++ ".e" ++ toString i, kind := .enumerator, doc := e.doc }]) ++
-    [{ key := key, path := path, kind := .enum, doc := doc }]
-  | .custom doc _ name => [{ key := scopedId name modScope, path := path, kind := .custom, doc := doc }]
-  | .alias doc _ name _ => [{ key := scopedId name modScope, path := path, kind := .alias, doc := doc }]
+/-- the commented elements of a definition: the definition itself and its members, each with its own members
+    (only enumerators have commented members of their own: their fields) -/
+structure DefParts where
+  self : Commented
+  members : List (Commented × List Commented)
+  deriving Inhabited
 
-/-- AST node order of the commented elements (`comment_link_patcher` walks `ast.as_slice()`): enumerators are added by
-    `construct_enum`, after the fields of all of them -/
-def defCommentedAstOrder (modScope path : String) : Def → List Commented
-  | .enum doc _ _ _ name _ es =>
+def defParts (modScope path : String) : Def → DefParts
+  | .struct doc attrs _ name fields =>
     let key := scopedId name modScope
-    (es.zipIdx.flatMap fun (e, i) => fieldsCommented (scopedId e.name key) (path ++ ".e" ++ toString i) (e.fields.getD [])) ++
-    (es.zipIdx.map fun (e, i) => { key := scopedId e.name key, path := path ++ ".e" ++ toString i, kind := .enumerator, doc := e.doc }) ++
-    [{ key := key, path := path, kind := .enum, doc := doc }]
-  | d => defCommentedParseOrder modScope path d
+    let chain := allowArgs attrs
+    ⟨{ key := key, path := path, kind := .struct, doc := doc, chain := chain }, (fieldsCommented key path chain fields).map fun c => (c, [])⟩
+  | .iface doc attrs name _ ops =>
+    let key := scopedId name modScope
+    let chain := allowArgs attrs
+    ⟨{ key := key, path := path, kind := .interface, doc := doc, chain := chain },
+     ops.zipIdx.map fun (o, i) => (opCommented key (path ++ ".o" ++ toString i) chain o, [])⟩
+  | .enum doc attrs _ _ name _ es =>
+    let key := scopedId name modScope
+    let chain := allowArgs attrs
+    ⟨{ key := key, path := path, kind := .enum, doc := doc, chain := chain },
+     es.zipIdx.map fun (e, i) =>
+       ({ key := scopedId e.name key, path := path ++ ".e" ++ toString i, kind := .enumerator, doc := e.doc, chain := allowArgs e.attrs ++ chain },
+        fieldsCommented (scopedId e.name key) (path ++ ".e" ++ toString i) (allowArgs e.attrs ++ chain) (e.fields.getD []))⟩
+  | .custom doc attrs name => ⟨{ key := scopedId name modScope, path := path, kind := .custom, doc := doc, chain := allowArgs attrs }, []⟩
+  | .alias doc attrs name _ => ⟨{ key := scopedId name modScope, path := path, kind := .alias, doc := doc, chain := allowArgs attrs }, []⟩
+
+/-- the order in which the constructors run in the parser = the order in which the elements are added to the AST per
+    container: members before their container -/
+def DefParts.parseOrder (q : DefParts) : List Commented := (q.members.flatMap fun m => m.2 ++ [m.1]) ++ [q.self]
+
+/-- AST node order (`comment_link_patcher` walks `ast.as_slice()`): enumerators are added by `construct_enum`, after the
+    fields of all of them -/
+def DefParts.astOrder (q : DefParts) : List Commented := (q.members.flatMap fun m => m.2) ++ q.members.map (·.1) ++ [q.self]
 
 /-- visitor order (validators): container first, then its members -/
-def defCommentedVisitOrder (modScope path : String) : Def → List Commented
-  | .struct doc _ _ name fields =>
-    let key := scopedId name modScope
-    [{ key := key, path := path, kind := .struct, doc := doc }] ++ fieldsCommented key path fields
-  | .iface doc _ name _ ops =>
-    let key := scopedId name modScope
-    [{ key := key, path := path, kind := .interface, doc := doc }] ++ (ops.zipIdx.map fun (o, i) => opCommented key (path ++ ".o" ++ toString i) o)
-  | .enum doc _ _ _ name _ es =>
-    let key := scopedId name modScope
-    [{ key := key, path := path, kind := .enum, doc := doc }] ++
-    (es.zipIdx.flatMap fun (e, i) =>
-      [{ key := scopedId e.name key, path := path ++ ".e" ++ toString i, kind := .enumerator, doc := e.doc }] ++
-      fieldsCommented (scopedId e.name key) (path ++ ".e" ++ toString i) (e.fields.getD []))
-  | d => defCommentedParseOrder modScope path d
+def DefParts.visitOrder (q : DefParts) : List Commented := [q.self] ++ q.members.flatMap fun m => m.1 :: m.2
+
+def defCommentedParseOrder (modScope path : String) (d : Def) : List Commented := (defParts modScope path d).parseOrder
+def defCommentedAstOrder (modScope path : String) (d : Def) : List Commented := (defParts modScope path d).astOrder
+def defCommentedVisitOrder (modScope path : String) (d : Def) : List Commented := (defParts modScope path d).visitOrder
 
 def docSite (kind : String) (file : Nat) (c : Commented) : LintSite :=
-  { kind := kind, file := file, scope := recordedScope kind "" c.key, concerns := some c.key, path := c.path }
+  { kind := kind, file := file, scope := recordedScope kind "" c.key, concerns := some c.key, chain := c.chain, path := c.path }
 
 /-- a comment that does not parse yields one MalformedDocComment and is dropped -/
 def malformedSites (file : Nat) (c : Commented) : List LintSite :=
@@ -455,8 +509,6 @@ def incorrectTagSites (file : Nat) (c : Commented) : List LintSite :=
      | [] => s.returns.map fun _ => site
      | [_] => (s.returns.filter fun r => r.isSome).map fun _ => site
      | _ => (s.returns.filter fun r => match r with | some id => !rets.contains id | none => false).map fun _ => site)
-
-def fileModScope (f : SFile) : String := match f.module with | some m => m.path | none => ""
 
 def perDef {α} (p : Program) (g : Nat → String → String → Def → List α) : List α :=
   p.zipIdx.flatMap fun (f, i) => f.defs.zipIdx.flatMap fun (d, j) => g i (fileModScope f) ("d" ++ toString j) d
@@ -490,31 +542,82 @@ def namedByCli (cli : List String) (code : String) : Bool :=
 def namedByAttrs (allows : List (List String)) (code : String) : Bool :=
   allows.any fun a => a.any fun id => id == Gen.allowAllIdentifier || id == code
 
-/-- the level the property text demands for a lint site: silenced exactly when named on the command line, on its file,
-    on the element it concerns or on a definition enclosing that element -/
+/-- the level the property text demands for a lint site: silenced exactly when named by an accepted `--allow` value, by
+    an `allow` attribute of the file it occurs in, or by an `allow` attribute on the element it concerns or on a definition
+    enclosing that element (`chain`, read off the syntax — no table lookup, no scope string) -/
 def demandedLevel (cli : List String) (p : Program) (s : LintSite) : Level :=
-  if namedByCli cli s.kind || namedByAttrs (fileAllowsOf p s.file) s.kind ||
-     (match s.concerns with
-      | some k => match scopeAllowsOf p k with | some as => namedByAttrs as s.kind | none => false
-      | none => false)
+  if namedByCli cli s.kind || namedByAttrs (fileAllowsOf p s.file) s.kind || namedByAttrs s.chain s.kind
   then .allowed else lintDefaultLevel s.kind
 
-/-! ## the two witness programs of the pinned tree's defects (used by Props/C13.lean and by the driver) -/
+/-! ## side conditions of the full theorem (decidable) -/
 
-/-- `module M  [deprecated] struct Dep { x: bool }  struct S { [allow(Deprecated)] f: Dep }` -/
+/-- number of elements registered under the key `k` (primitives, modules and every named element of every file) -/
+def keyCount (p : Program) (k : String) : Nat := ((allowTable p).filter fun e => e.1 == k).length
+
+/-- the D-13c exclusion: the scope string the lint records names ONE element. It fails exactly when two elements share
+    a parser-scoped identifier; apart from programs that are rejected anyway (redefinitions, a definition named like a
+    module) this is a parameter and a return member of the same operation with the same name — which includes a
+    parameter called `returnValue` next to a single unnamed return type. -/
+def scopeKeyUnique (p : Program) (s : LintSite) : Bool :=
+  match s.scope with
+  | some k => decide (keyCount p k ≤ 1)
+  | none => true
+
+/-- `Allow::parse_from` accepted every argument of the `allow` attributes in play for this site (file, element,
+    enclosing definitions); any other argument is error E027 and the compilation has failed -/
+def siteArgsOk (p : Program) (s : LintSite) : Bool :=
+  (fileAllowsOf p s.file ++ s.chain).all fun a => a.all fun v => !allowArgInvalid v
+
+/-! ## witness programs (used by Props/C13.lean and by the driver) -/
+
+def depStructDef : Def :=
+  .struct [] [⟨"deprecated", []⟩] false "Dep" [{ doc := [], attrs := [], tag := none, name := "x", ty := .mk [] (.prim .bool) false }]
+
+/-- `module M  [deprecated] struct Dep { x: bool }  struct S { [allow(Deprecated)] f: Dep }` — the former D-13a witness -/
 def d13aProgram : Program :=
   [{ fileAttrs := [], module := some ⟨[], "M"⟩,
-     defs := [.struct [] [⟨"deprecated", []⟩] false "Dep" [{ doc := [], attrs := [], tag := none, name := "x", ty := .mk [] (.prim .bool) false }],
+     defs := [depStructDef,
               .struct [] [] false "S" [{ doc := [], attrs := [⟨"allow", ["Deprecated"]⟩], tag := none, name := "f", ty := .mk [] (.named "Dep") false }]] }]
 
 /-- the lint the compiler records for `f: Dep` (checked against `lintSites d13aProgram` by the driver, and against the
-    real compiler by the correspondence): scope = the struct, although the lint concerns the field -/
-def d13aSite : LintSite := { kind := "Deprecated", file := 0, scope := some "M::S", concerns := some "M::S::f", path := "d1.f0.t" }
+    real compiler by the correspondence): since 7283de9 the scope is the field itself -/
+def d13aSite : LintSite :=
+  { kind := "Deprecated", file := 0, scope := some "M::S::f", concerns := some "M::S::f", chain := [["Deprecated"]], path := "d1.f0.t" }
+
+/-- what the same site looked like before 7283de9 (scope = the struct) -/
+def d13aSiteOld : LintSite := { d13aSite with scope := some "M::S" }
 
 /-- `module M  /// {@link  struct S {}` -/
 def d13bProgram : Program :=
   [{ fileAttrs := [], module := some ⟨[], "M"⟩, defs := [.struct [" {@link"] [] false "S" []] }]
 
-def d13bSite : LintSite := { kind := "MalformedDocComment", file := 0, scope := some "M::S", concerns := some "M::S", path := "d0" }
+def d13bSite : LintSite := { kind := "MalformedDocComment", file := 0, scope := some "M::S", concerns := some "M::S", chain := [], path := "d0" }
+
+def d13cParam (attrs : List Attr) (name : String) (ty : TyExpr) : Param := { attrs := attrs, tag := none, name := name, stream := false, ty := .mk [] ty false }
+
+/-- D-13c, the suppression is ignored:
+    `module M  [deprecated] struct Dep { x: bool }  interface I { op([allow(Deprecated)] a: Dep) -> (a: Dep, b: bool) }` -/
+def d13cProgram : Program :=
+  [{ fileAttrs := [], module := some ⟨[], "M"⟩,
+     defs := [depStructDef,
+              .iface [] [] "I" [] [{ doc := [], attrs := [], idempotent := false, name := "op",
+                                      params := [d13cParam [⟨"allow", ["Deprecated"]⟩] "a" (.named "Dep")],
+                                      ret := .tuple [d13cParam [] "a" (.named "Dep"), d13cParam [] "b" (.prim .bool)] }]] }]
+
+/-- the lint about the PARAMETER `a` of `d13cProgram`: scope string `M::I::op::a`, which the AST's table maps to the return member -/
+def d13cSite : LintSite :=
+  { kind := "Deprecated", file := 0, scope := some "M::I::op::a", concerns := some "M::I::op::a", chain := [["Deprecated"]], path := "d1.o0.p0.t" }
+
+/-- D-13c, a foreign suppression is honoured: `… interface I { op(a: Dep) -> ([allow(Deprecated)] a: Dep, b: bool) }` -/
+def d13cProgram2 : Program :=
+  [{ fileAttrs := [], module := some ⟨[], "M"⟩,
+     defs := [depStructDef,
+              .iface [] [] "I" [] [{ doc := [], attrs := [], idempotent := false, name := "op",
+                                      params := [d13cParam [] "a" (.named "Dep")],
+                                      ret := .tuple [d13cParam [⟨"allow", ["Deprecated"]⟩] "a" (.named "Dep"), d13cParam [] "b" (.prim .bool)] }]] }]
+
+/-- the lint about the PARAMETER `a` of `d13cProgram2` (no `allow` on it nor on anything enclosing it) -/
+def d13cSite2 : LintSite :=
+  { kind := "Deprecated", file := 0, scope := some "M::I::op::a", concerns := some "M::I::op::a", chain := [], path := "d1.o0.p0.t" }
 
 end Slicec
